@@ -120,6 +120,88 @@ theorem uPush_rel {il im : Nat} {o o' : O} {st st' : List O} (ho : CoreRel o o')
   | nil => exact ⟨append_coreRel hp hq h ho r _ _, .nil⟩
   | cons ht hr => exact ⟨ho, .cons (append_coreRel hp hq h ht r _ _) hr⟩
 
+end
+
+/-! ### the text of an unknown at-rule starts with its keyword -/
+
+theorem uPush_core {r : Prefs} (hr : WsPrefs r) (il : Nat) (o : O) (st : List O) (v : AVal) (ty : Cps) :
+    ∃ Y, core (uPush r il o st v ty).1 = core o ++ Y := by
+  cases st with
+  | nil => exact ⟨_, core_append hr il o v ty {}⟩
+  | cons top rest => exact ⟨[], by simp [uPush]⟩
+
+theorem uItems_core_prefix {r : Prefs} (hr : WsPrefs r) (lv : Nat) : ∀ (items : List UItem) (o : O) (st : List O) (t : Cps),
+    uItems r lv items o st = .ok t → ∃ X, stripWs t = core o ++ X
+  | [], o, _, t, ht => by
+    simp only [uItems, pure, Except.pure, Except.ok.injEq] at ht
+    subst ht
+    exact ⟨[], by have := stripWs_value o [] false; simpa [stripWs_nil] using this⟩
+  | .str ty s :: rest, o, st, t, ht => by
+    simp only [uItems] at ht
+    split at ht
+    · cases st with
+      | nil => simp at ht
+      | cons top st1 =>
+        simp only at ht
+        obtain ⟨Y, hY⟩ := uPush_core hr (lv + 1) o st1
+          (.str (if !(value top).isEmpty then indentblock r (value top ++ r.lineSeparator ++ [125]) 1
+                 else indentblock r [125] 1)) ty
+        obtain ⟨X, hX⟩ := uItems_core_prefix hr lv rest _ _ t ht
+        exact ⟨Y ++ X, by rw [hX, hY, List.append_assoc]⟩
+    · obtain ⟨Y, hY⟩ := uPush_core hr (lv + 1) o st (.str s) ty
+      obtain ⟨X, hX⟩ := uItems_core_prefix hr lv rest _ _ t ht
+      exact ⟨Y ++ X, by rw [hX, hY, List.append_assoc]⟩
+  | .comment c :: rest, o, st, t, ht => by
+    simp only [uItems] at ht
+    obtain ⟨Y, hY⟩ := uPush_core hr (lv + 1) o st (.obj (doComment r c)) t_COMMENT
+    obtain ⟨X, hX⟩ := uItems_core_prefix hr lv rest _ _ t ht
+    exact ⟨Y ++ X, by rw [hX, hY, List.append_assoc]⟩
+  | .rule u :: rest, o, st, t, ht => by
+    simp only [uItems] at ht
+    cases hu : doURule r lv u with
+    | error e => rw [hu] at ht; simp at ht
+    | ok tu =>
+      rw [hu] at ht
+      simp only at ht
+      obtain ⟨Y, hY⟩ := uPush_core hr (lv + 1) o st (.obj tu) t_0
+      obtain ⟨X, hX⟩ := uItems_core_prefix hr lv rest _ _ t ht
+      exact ⟨Y ++ X, by rw [hX, hY, List.append_assoc]⟩
+
+/-- an unknown at-rule whose keyword has non-white-space content is never written as white space only -/
+def URule.keyworded : URule → Bool
+  | .mk _ atk _ => !(stripWs atk).isEmpty
+
+theorem doURule_solid {r : Prefs} (hr : WsPrefs r) (lv : Nat) (u : URule) (hk : u.keyworded = true) (t : Cps)
+    (ht : doURule r lv u = .ok t) : Solid t := by
+  cases u with
+  | mk wf atk items =>
+    simp only [doURule] at ht
+    split at ht
+    · obtain ⟨X, hX⟩ := uItems_core_prefix hr lv items _ _ t ht
+      rw [core_append hr, core_nil, List.nil_append] at hX
+      have hl : lexA r (.str atk) t_None {} = stripWs atk := by
+        rw [lexA_eq]; rfl
+      rw [hl] at hX
+      have hne : stripWs atk ≠ [] := by
+        intro e; simp [URule.keyworded, e] at hk
+      have h1 : stripWs t ≠ [] := by
+        rw [hX]; intro e; exact hne (List.append_eq_nil_iff.mp e).1
+      have h2 : t ≠ [] := by
+        intro e; subst e; exact h1 rfl
+      unfold Solid
+      cases t with
+      | nil => exact absurd rfl h2
+      | cons a b =>
+        cases hs : stripWs (a :: b) with
+        | nil => exact absurd hs h1
+        | cons c d => rfl
+    · simp only [pure, Except.pure, Except.ok.injEq] at ht
+      subst ht; rfl
+
+section
+variable {p q : Prefs} (hp : WsPrefs p) (hq : WsPrefs q) (h : ContentEq p q)
+include hp hq h
+
 mutual
 theorem doURule_layout (lv lw : Nat) : ∀ r : URule,
     (doURule p lv r).map stripWs = (doURule q lw r).map stripWs
@@ -178,7 +260,7 @@ theorem uItems_layout (lv lw : Nat) : ∀ (items : List UItem) (o o' : O) (st st
     cases e1 : doURule p lv u with
     | error e =>
       cases e2 : doURule q lw u with
-      | error e' => rw [e1, e2] at ih; simpa [Except.map] using ih
+      | error e' => cases e; cases e'; rfl
       | ok t' => rw [e1, e2] at ih; simp [Except.map] at ih
     | ok t =>
       cases e2 : doURule q lw u with
